@@ -16,10 +16,11 @@ _cache = {}
 
 # units whose obligations have committed replay scripts (`<script> <compiler-binary>`: exit 1 = the defect shows on the real code)
 COMPILER_REPLAYS = {
-    "u_diagord": ["replay/c13/missing_methods/run.sh"],
+    "u_diagord": ["replay/c13/missing_methods/run.sh", "replay/c13/unknown_fields/run.sh"],
     "u_occurs": ["replay/c04/occurs/run.sh"],
     "u_tmono": ["replay/c07/run.sh"],
     "u_mcall": ["replay/c07/call_instances.sh"],
+    "u_link": ["replay/c13/link_error/run.sh"],
 }
 
 
